@@ -72,6 +72,7 @@ func EngineCallRefLinkAndCheck(allNg map[string]*runtime.Script, allErrNg map[st
 	retErrMap := map[string]error{}
 
 	for name, proc := range allNg {
+		verifVisit(name)
 		p := &param{
 			name:     name,
 			namePos:  token.InvalidLnColPos,
